@@ -245,7 +245,9 @@ CHECKS = {
             "or closing on either connection) plus seeded shapes, 400-datagram concurrent bursts for the datagram services, and malformed ssh "
             "channel requests through a real ssh client are executed against ONE real server in a crash-isolated child; the child dying, a "
             "fresh echo connection not being served (also after an idle period of 32 s, when timers started on a connection's behalf fire), "
-            "or the heap growing while idle are violations; a death is attributed by re-running the scenarios in flight (halving), with the idle wait when it came late.",
+            "or the heap growing while idle are violations; a death is attributed by re-running the scenarios in flight (halving), with the idle wait when it came late. "
+            "The scenarios and four complete TLS handshakes with different server names run once more against a lab built with Go's race detector: an unsynchronised access to a MAP "
+            "(which the runtime punishes with a fatal error when two accesses overlap - a window no exploration hits) is a violation, races on plain variables are only counted.",
             "Exploration, not proof: inputs outside grammar+mutators are not tried; memory growth is a thresholded measurement; recovered "
             "panics are allowed and only counted.",
             "TLA+ spec (invariant + deviations) + TLC-generated dialogue shapes, model-based exploration of the real server in a child process",
